@@ -526,6 +526,21 @@ func main() {
 						}
 					}()
 				}
+				// … and the probe CLIENT LIST uses on every connection, at a much higher rate
+				for q := 0; q < 2; q++ {
+					pollers.Add(1)
+					go func() {
+						defer pollers.Done()
+						for {
+							select {
+							case <-stop:
+								return
+							default:
+								a.IsBlocked()
+							}
+						}
+					}()
+				}
 				lost := ""
 				for i := 0; i < 25 && lost == ""; i++ {
 					ch := async(a, mk(tmpl, "uk", "0")...)
